@@ -17,13 +17,14 @@ mido = bootstrap()
 import mido.midifiles.midifiles as mfmod  # noqa: E402
 from mido import MidiFile, MidiTrack, MetaMessage, Message  # noqa: E402
 
-CHARSETS = ('latin1', 'ascii', 'utf-8', 'cp1252', 'shift_jis', 'utf-16', 'utf-16-le', 'utf-32', 'koi8_r', 'cp037')
+CHARSETS = ('latin1', 'ascii', 'utf-8', 'cp1252', 'shift_jis', 'utf-16', 'utf-16-le', 'utf-32', 'koi8_r', 'cp037',
+            'utf-16-be', 'utf-32-le', 'utf-7', 'iso2022_jp', 'cp500', 'euc_jp', 'utf8', 'UTF-16', 'sjis')
 POOL = ['A', 'z', ' ', '0', '~', 'é', 'ü', 'ß', 'Ø', ' ', '€', 'я', 'Ж', 'あ', '漢', 'ｱ', '𝄞', '\u0080']
 TEXT_TYPES = {'text': ('text', 1), 'copyright': ('text', 2), 'track_name': ('name', 3),
               'instrument_name': ('name', 4), 'lyrics': ('text', 5), 'marker': ('text', 6),
               'cue_marker': ('text', 7), 'device_name': ('name', 9)}
-SAVE_FAULTS = ('float_time', 'negative_time', 'realtime', 'unencodable', 'type0_two_tracks')
-LOAD_FAULTS = ('bad_data_byte', 'undecodable', 'bad_keysig', 'bad_header', 'garbage_tail')
+SAVE_FAULTS = ('float_time', 'negative_time', 'realtime', 'unencodable', 'type0_two_tracks', 'unknown_charset')
+LOAD_FAULTS = ('bad_data_byte', 'undecodable', 'bad_keysig', 'bad_header', 'garbage_tail', 'unknown_charset')
 
 
 def gen_text(rng, cs, maxlen=6):
@@ -223,9 +224,11 @@ class Charset(BaseEngine):
         except Exception as e:
             return 'raised', e
 
-    def do_load(self, image, cs, disk, via, fault=None, default_charset=False):
+    def do_load(self, image, cs, disk, via, fault=None, default_charset=False, clip=False):
         disk.files['in.mid'] = bytearray(image)
         kw = {} if default_charset else {'charset': cs}
+        if clip:
+            kw['clip'] = True
         try:
             if via == 'filename':
                 disk.next_fault = fault
@@ -257,6 +260,10 @@ class Charset(BaseEngine):
             mf.type = 0
             while len(mf.tracks) < 2:
                 mf.tracks.append(MidiTrack())
+        elif kind == 'unknown_charset':
+            mf.charset = 'utf-88'
+            if not any(m.is_meta and m.type in TEXT_TYPES for tr in mf.tracks for m in tr):
+                tr.append(MetaMessage('marker', text='x'))
         return mf
 
     def semantic_load_fault(self, image, kind, cs):
@@ -311,6 +318,10 @@ class Charset(BaseEngine):
         if texts_of(back) != want:
             raise Violation('text-roundtrip', f'charset {cs}: texts {want!r} came back as {texts_of(back)!r}')
         self.probe(f'load[{cs}]', stats, own)
+        tag, back2 = self.do_load(image, cs, disk, via, clip=True)
+        if tag != 'ok' or texts_of(back2) != want:
+            raise Violation('text-roundtrip', f'charset {cs}, load with clip=True: texts {want!r} came back as '
+                                              f'{texts_of(back2) if tag == "ok" else back2!r}')
         if cs in ('utf-16', 'utf-32') and any(s for _, s in want):
             stats['probe:utf16_bom_roundtrip'] += 1
         stats['roundtrips'] += 1
@@ -338,7 +349,8 @@ class Charset(BaseEngine):
                 stats['fault:read_oserror'] += 1
                 self.probe(f'load[{cs}] read error', stats)
             for kind in LOAD_FAULTS:
-                tag, res = self.do_load(self.semantic_load_fault(image, kind, cs), cs, disk, via)
+                tag, res = self.do_load(self.semantic_load_fault(image, kind, cs),
+                                        'utf-88' if kind == 'unknown_charset' else cs, disk, via)
                 outcomes[f'{kind}:{tag}:{type(res).__name__ if tag == "raised" else ""}'] += 1
                 stats['fault:' + kind] += 1
                 self.probe(f'load[{cs}] {kind}', stats)
@@ -402,7 +414,8 @@ class Charset(BaseEngine):
                 elif c['fault'] == 'semantic':
                     image = self.semantic_load_fault(image, c['sem'], cs)
                     stats['fault:' + c['sem']] += 1
-                tag, res = self.do_load(image, cs, disk, c['via'], fault=fault,
+                tag, res = self.do_load(image, 'utf-88' if (c['fault'] == 'semantic' and c['sem'] == 'unknown_charset')
+                                        else cs, disk, c['via'], fault=fault,
                                         default_charset=(cs == 'latin1' and c['where'] % 3 == 0))
             log.ev('call', ci, c['dir'], cs, c['fault'], tag, type(res).__name__ if tag == 'raised' else '')
             own = [t for _, t in texts_of(build_file(c['content'], cs))]
